@@ -15,8 +15,12 @@ source, name, prop = sys.argv[1:4]
 checks = sys.argv[4:] or [prop]
 target = os.path.join(VERIF, "seeded", name)
 os.makedirs(target, exist_ok=True)
+previous = {}
+if os.path.exists(os.path.join(target, "meta.json")):
+    previous = json.load(open(os.path.join(target, "meta.json")))
 for item in ("patch.diff", "demo.py", "note.md"):
-    if os.path.exists(os.path.join(source, item)):
+    # importing from the stored directory itself re-verifies it (after tools/rebase_patches.py re-cut its patch)
+    if os.path.exists(os.path.join(source, item)) and os.path.abspath(source) != os.path.abspath(target):
         shutil.copy(os.path.join(source, item), os.path.join(target, item))
 proc = subprocess.run([sys.executable, os.path.join(VERIF, "tools", "seedcheck.py"), target] + checks,
                       stdout=subprocess.PIPE, text=True)
@@ -40,5 +44,10 @@ meta = {
     "caught_by": [c for c, v in result["checks"].items() if v["exit"] == 1],
     "missed_by": [c for c, v in result["checks"].items() if v["exit"] == 0],
 }
+for key in ("summary", "ported"):
+    if key in previous:
+        meta[key] = previous[key]
+if previous.get("disposition") and not meta["caught_by"]:
+    meta["disposition"] = previous["disposition"]
 json.dump(meta, open(os.path.join(target, "meta.json"), "w"), indent=1)
 print(name, "confirmed" if meta["confirmed"] else "NOT CONFIRMED", "caught by", meta["caught_by"], "missed by", meta["missed_by"])
